@@ -208,6 +208,8 @@ def run(ctx):
 
 def _is_append(node):
     for a in ancestors(node):
+        if a.get('kind') == 'CallExpr' and callee(a) and callee(a)[0] == 'fn' and callee(a)[1].get('name') in ('back_inserter',):
+            return True         # std::back_inserter(c): an output iterator that can only push_back
         if a.get('kind') == 'CXXMemberCallExpr':
             c = callee(a)
             return bool(c and c[0] == 'method' and c[1] in ('push_back', 'emplace_back'))
